@@ -114,11 +114,14 @@ func (k *kase) state(cid int) rhp4.RevisionState {
 //	mayCommit  whether the harness expects the host to be allowed to accept
 func (k *kase) attempt(rpc, variant string, cid int, mayCommit bool, due types.Currency, run func() rhpx.Result) rhpx.Result {
 	before := k.state(cid)
+	bal0 := k.balances()
 	k.w.rig.Rec.Tee(true)
 	res := run()
 	k.c.Op(res.Op, res.Impl)
 	calls := k.w.rig.Rec.TakeTee()
 	after := k.state(cid)
+	bal1 := k.balances()
+	defer func() { k.creditsPerKey(rpc, calls, bal0, bal1) }()
 	class := rpc + ":" + variant
 	for _, n := range res.Notes {
 		k.c.Oracle("proof:"+rpc, "%s", n)
@@ -179,6 +182,68 @@ func (k *kase) attempt(rpc, variant string, cid int, mayCommit bool, due types.C
 	k.relations(class, old, rev, dueBig)
 	k.consensusOK(class, cid)
 	return res
+}
+
+
+// the accounts and pools the cases of this package ever name
+var ledgerAccounts = []int{acctA, acctB, acctA + 2}
+var ledgerPools = []int{poolP, poolP + 1, poolP + 2}
+
+type balances struct {
+	acct, pool map[proto4.Account]*big.Int
+}
+
+func (k *kase) balances() balances {
+	b := balances{acct: map[proto4.Account]*big.Int{}, pool: map[proto4.Account]*big.Int{}}
+	for _, a := range ledgerAccounts {
+		v, _ := k.w.rig.EC.AccountBalance(rhpx.Acct(a))
+		b.acct[rhpx.Acct(a)] = v.Big()
+	}
+	var keys []proto4.Account
+	for _, p := range ledgerPools {
+		keys = append(keys, rhpx.Acct(p))
+	}
+	vs, _ := k.w.rig.EC.PoolBalances(keys)
+	for i, key := range keys {
+		b.pool[key] = vs[i].Big()
+	}
+	return b
+}
+
+// creditsPerKey: every account (pool) gains exactly the sum of the deposits naming it in the credit
+// call the host persisted — also when one batch names it more than once — and nothing else moves;
+// in total the balances gain exactly what the renter's payout lost.
+func (k *kase) creditsPerKey(rpc string, calls []rhpx.Call, b0, b1 balances) {
+	wantA, wantP := map[proto4.Account]*big.Int{}, map[proto4.Account]*big.Int{}
+	for _, c := range calls {
+		if c.Err != nil || (c.Kind != "creditA" && c.Kind != "creditP") {
+			continue
+		}
+		m := wantA
+		if c.Kind == "creditP" {
+			m = wantP
+		}
+		for _, d := range c.Deposits {
+			if m[d.Account] == nil {
+				m[d.Account] = new(big.Int)
+			}
+			m[d.Account].Add(m[d.Account], d.Amount.Big())
+		}
+	}
+	cmp := func(what string, before, after, want map[proto4.Account]*big.Int) {
+		for key, v0 := range before {
+			gain := new(big.Int).Sub(after[key], v0)
+			w := want[key]
+			if w == nil {
+				w = new(big.Int)
+			}
+			if gain.Cmp(w) != 0 {
+				k.c.Oracle("credit-per-"+what+":"+rpc, "%s %d gained %v but the deposits naming it in the persisted batch add up to %v", what, rhpx.KeyID(types.PublicKey(key)), gain, w)
+			}
+		}
+	}
+	cmp("account", b0.acct, b1.acct, wantA)
+	cmp("pool", b0.pool, b1.pool, wantP)
 }
 
 // relations checks the property's per-revision clauses between the revision before and after.
@@ -448,6 +513,9 @@ func (k *kase) run(rpc string, v variant, inHistory bool) rhpx.Result {
 		}
 	case "fund":
 		ds := []rhpx.Deposit{{Account: acctA, Amount: cur(12345)}, {Account: acctB, Amount: cur(1)}}
+		if inHistory && k.w.nextID%3 == 0 { // one batch naming an account twice
+			ds = []rhpx.Deposit{{Account: acctA, Amount: cur(12000)}, {Account: acctB, Amount: cur(1)}, {Account: acctA, Amount: cur(345)}}
+		}
 		sig := v.second
 		commit := v.commit && v.prices == nil || v.commit && v.prices != nil // prices are not part of this RPC
 		if c := v.chal(k, cid); c.Kind != "h" {
@@ -555,6 +623,7 @@ func params(idx int) func(w *worker) {
 			fund("zero-account", []rhpx.Deposit{{Account: 0, Amount: cur(3)}}, false, cur(0))
 			fund("more-than-the-contract-holds", []rhpx.Deposit{{Account: acctA, Amount: types.Siacoins(1000000)}}, false, cur(0))
 			fund("same-account-twice", []rhpx.Deposit{{Account: acctA, Amount: cur(3)}, {Account: acctA, Amount: cur(4)}}, true, cur(7))
+			fund("same-account-thrice-apart", []rhpx.Deposit{{Account: acctA, Amount: cur(10)}, {Account: acctB, Amount: cur(1)}, {Account: acctA, Amount: cur(20)}, {Account: acctA, Amount: cur(30)}}, true, cur(61))
 		case 4: // an unknown contract
 			k.attempt("free", "unknown-contract", 9, false, cur(0), func() rhpx.Result {
 				return w.s.Free(rhpx.FreeArgs{Cid: 9, Prices: ps, Chal: rhpx.Honest, Indices: []uint64{0}, Second: rhpx.Honest})
